@@ -43,7 +43,7 @@ def op_lines(ctx):
         variants = [[]]
         for k, kind in enumerate(op["imm"]):
             if kind == "int":
-                vs = ["3"]
+                vs = ["3", "0"]      # zero: an immediate that is present but falsy
             elif kind == "none":
                 vs = [None]
             elif kind == "str":
@@ -60,6 +60,7 @@ def op_lines(ctx):
                     if info["array"]:
                         if style in ("both", "idx"):
                             vs.append(f"{name} 1")
+                            vs.append(f"{name} 0")
                         if style == "noidx":
                             vs.append(name)
                     elif style in ("both", "scalar") or (style == "noidx" and mn == "itxn_field"):
